@@ -172,7 +172,7 @@ class C03(Prop):
                 for cuts in itertools.combinations(range(1, n), r):
                     variant(cuts_to_seg(cuts, n), recv_size=max(rs, 64))
             variant([0])            # and once under the knob's own RECV_SIZE
-            variant([1], [0, 1])
+            variant([1], [0, 0, 1, 1, 1])
             return out
         # structural positions
         interesting = set()
@@ -207,7 +207,7 @@ class C03(Prop):
             variant(cuts_to_seg(sorted(cs), n), recv_size=rng.choice([WHOLE, rs]))
         for _ in range(30):                            # EINTR between pieces
             seg = [rng.choice([1, 2, 3, 5, rs, 0]) for _ in range(rng.randint(1, 4))]
-            variant(seg, sorted(rng.sample(range(8), rng.randint(1, 3))))
+            variant(seg, sorted(rng.choice(range(8)) for _ in range(rng.randint(1, 5))))   # repeats = EINTR bursts
         return out
 
     def __init__(self):
@@ -294,7 +294,7 @@ class C03(Prop):
 
     def probe_names(self):
         return ("crlf-straddles-two-pieces", "end-token-straddles-pieces", "value-ends-at-piece-boundary",
-                "single-byte-delivery", "eintr-between-pieces", "reply-longer-than-4096", "exhaustive-cut-sets-entry",
+                "single-byte-delivery", "eintr-between-pieces", "eintr-burst-before-one-piece", "reply-longer-than-4096", "exhaustive-cut-sets-entry",
                 "segment-reader", "value-reader", "line-reader")
 
     def probes(self, scn, res):
@@ -314,8 +314,11 @@ class C03(Prop):
                 p["single-byte-delivery"] = 1
             if len(rec.extra.get("rx", b"")) > 4096:
                 p["reply-longer-than-4096"] = 1
-            if (scn["steps"][pi].get("net") or {}).get("eintr") and len(rec.pieces) > 1:
+            ei = (scn["steps"][pi].get("net") or {}).get("eintr") or []
+            if ei and len(rec.pieces) > 1:
                 p["eintr-between-pieces"] = 1
+            if len(ei) != len(set(ei)) and any(ei.count(x) > 1 and x < len(rec.pieces) for x in ei):
+                p["eintr-burst-before-one-piece"] = 1
             if 1 < len(rec.extra.get("rx", b"")) <= 11:
                 p["exhaustive-cut-sets-entry"] = 1
         return p
